@@ -118,6 +118,14 @@ theorem efun_surface_modelled : fsEfuns.all (fun f => harnessEfuns.contains f) =
 
 example : fsEfuns.length ≥ 20 := by decide
 
+/-- `check_valid_path` consults the master through `apply_master_ob` and nothing else: that function does not
+    catch errors, so an error raised by valid_read / valid_write unwinds through the efun (`Verdict.raise`:
+    nothing is returned, nothing is touched).  The error-swallowing variants (`safe_apply_master_ob`,
+    `safe_apply`) return 0 for a failed call, which `check_valid_path` reads as "function not defined" =
+    approved: with them the mediation would FAIL OPEN — such a change alters this regenerated list and breaks
+    the theorem. -/
+theorem mediation_propagates_errors : mediationApplies = ["apply_master_ob"] := by decide
+
 /-- an unmediated site is rejected (non-vacuity of `siteOk`) -/
 example : siteOk { file := "lib/efuns/file.c", fn := "f_rmdir", callee := "rmdir", arg := 0, line := 76,
                    origin := .other "path <- sp->u.string", root := "sp->u.string" } = false := by decide
